@@ -25,7 +25,7 @@ func genC06(t *rapid.T, prop string) *LCase {
 		}
 	}
 	for _, f := range files {
-		if rapid.IntRange(0, 3).Draw(t, "addfile") == 0 {
+		if rapid.IntRange(0, 3).Draw(t, "addfile") <= 1 {
 			c.Adds = append(c.Adds, engine.P(f))
 		}
 	}
@@ -34,7 +34,7 @@ func genC06(t *rapid.T, prop string) *LCase {
 	}
 	c.Plug = rapid.IntRange(0, 9).Draw(t, "plug") < 5
 	c.Reach = genFsOps(t, "reach", files, dirs, 0, 25)
-	if rapid.IntRange(0, 9).Draw(t, "invalidate") < 3 {
+	if rapid.IntRange(0, 9).Draw(t, "invalidate") < 5 {
 		w := string(rapid.SampledFrom(c.Adds).Draw(t, "victim"))
 		isDir := w == "d0" || w == "d1" || w == "d0/sub"
 		c.Reach = append(c.Reach, genInvalidate(t, w, isDir)...)
@@ -120,6 +120,11 @@ func drainClosed(w *fsnotify.Watcher, sawPost *string) string {
 	return ""
 }
 
+// keepAlive holds the Worlds of finished cases reachable until the resource
+// probes of C13 have looked: an unreachable Watcher's os.File finalizer would
+// close a leaked descriptor behind our back and hide the leak.
+var keepAlive []*engine.World
+
 func runC06(c *LCase) (r c06Result) {
 	defer engine.Guard()
 	journal(c)
@@ -129,6 +134,9 @@ func runC06(c *LCase) (r c06Result) {
 		engine.ExitInconclusive("setup: " + err.Error())
 	}
 	defer w.Destroy()
+	if c.Prop == "C13" {
+		keepAlive = append(keepAlive, w)
+	}
 	for _, a := range c.Adds {
 		w.W.Add(string(a))
 	}
